@@ -1124,8 +1124,11 @@ def _run_case(case, dec, pristine):
                 # shared System objects re-used with different arguments
                 si, lay, dti, steps, api = op[1], op[2], op[3], op[4], op[5]
                 dt = [0.05, 0.1, 0.2][dti]
+                # systems 0 and 2 share the Hamiltonian and differ only in
+                # their dissipators (anything keyed by H alone would collide)
                 hams = [0.4 * o["x"] + 0.3 * o["z"],
-                        0.7 * o["y"] - 0.2 * o["z"], 0.5 * o["x"]]
+                        0.7 * o["y"] - 0.2 * o["z"],
+                        0.4 * o["x"] + 0.3 * o["z"]]
                 lops = [[o["-"]], [], [o["-"], o["z"]]]
                 gams = [[0.2], [], [0.1, 0.05]]
 
